@@ -47,6 +47,8 @@ type generator struct {
 	// focus: a structural anomaly was reported by the hook; prefer operations on relation nodes and
 	// registered filters so that latent corruption becomes observable (the verdict stays observable-only)
 	focus bool
+	// number of raw copies into pointer columns seen so far (hook counter); an increase triggers MoveStress
+	rawSeen int64
 }
 
 // relationNodeMasks lists the component sets of the relation nodes of the world (from World.Stats).
@@ -398,6 +400,12 @@ func (g *generator) next() (op Op) {
 }
 
 func (g *generator) nextInner() Op {
+	if g.p.TrackPay && !g.locked() {
+		if raw := ecs.VerifRawPtrCopies.Load(); raw > g.rawSeen {
+			g.rawSeen = raw + 1<<40 // once per world is enough
+			return Op{Op: "MoveStress", N: 4000}
+		}
+	}
 	alive := g.aliveRefs()
 	dead := g.deadRefs()
 	faulty := g.pct(g.p.FaultPct)
